@@ -229,6 +229,8 @@ mod search;
 #[cfg(feature = "sync")]
 mod sync;
 mod util;
+#[cfg(feature = "verif")]
+pub mod verif_hooks;
 
 pub use conn::{LdapConnAsync, LdapConnSettings, StdStream};
 pub use filter::parse as parse_filter;
